@@ -41,7 +41,8 @@ check('C19', 'cli',
       'option sets) up to 4 (quick) / 5 (thorough) parsers, proves the I-spec registration loop equal to the '
       'ancestor-closure A-spec in every reachable state, and each emitted graph is replayed on the real ArgParser: '
       'construction, three option strings per parser (two sharing a destination), all (command, option) pairs, common '
-      'options, default-command argvs incl. command / option-set names after options and as option values.',
+      'options, default-command argvs incl. command / option-set names after options and as option values; every graph with a '
+      'multi-parent command also under a naming scheme that makes the constructor walk the parents in another order (fixed hash seed), plus a sample of 6-parser graphs.',
       'Trusted: TLC, argparse. Distinct option strings per parser; default command = first real command with a free '
       'positional.  Known finding F-C19b is reported as KNOWN-FINDING.',
       'DESIGN.md section 4, C19')
@@ -56,7 +57,7 @@ check('C01', 'llparser',
       'TLC-built bounded grammar families replayed on the real LLParser; every returned tree judged by TLC against '
       'the TLA+ definition of a valid derivation (ValidParse) of the user grammar',
       'Every grammar of the bounded families (all ordered alternative lists incl. nullable, ambiguous, common-prefix and '
-      'nested-prefix ones, both smart_factorization settings, both dict orders, keyword/synonym/quoted-word/comment tokenizer (keywords also rename tokens into and out of the skipped kinds), explicitly empty skip_tokens, every symbol as explicit start_symbol_name) is built by '
+      'nested-prefix ones, both smart_factorization settings, both dict orders, keyword/synonym/quoted-word/comment tokenizer (keywords also rename tokens into and out of the skipped kinds), explicitly empty skip_tokens, every symbol as explicit start_symbol_name, the text also as a list / iterator of lines) is built by '
       'the TLA+ case builder, parsed by the real parser on all inputs up to the length bound, and every returned tree '
       'is accepted or rejected by TLC against ValidParse: root, each node a user production, yield = tokens.',
       _LLNOTE, 'DESIGN.md section 4, C01')
@@ -67,7 +68,7 @@ check('C02', 'llparser',
       'disjointness, bounded language fixpoint) gives ll1 and the sentence set; the real parser is run on all inputs up '
       'to the bound, members and non-members, for both smart settings; is_ambiguous() is re-read after the parses; a '
       'conflict-free grammar must not be refused by the constructor (for either setting).  Extra families: wide '
-      'common-prefix groups of up to 6 alternatives (W6) and chains with nullable heads (H3).',
+      'common-prefix groups of up to 6 alternatives (W6), chains with nullable heads (H3) and FOLLOW through a nullable last symbol behind a terminal (F4, 4 symbols).',
       _LLNOTE, 'DESIGN.md section 4, C02')
 check('C03', 'llparser',
       'TLC decides LeftRecursive(G) (transitive left-corner relation behind nullable prefixes) for every grammar of the '
@@ -77,7 +78,7 @@ check('C03', 'llparser',
       'and both dict orders, plus the left-recursion focused families R3 (3 symbols, base alternatives and one sequence of '
       'non-terminals) and N3 (a nullable symbol occurring twice in a production): constructor outcome compared with the TLA+ left-recursion relation; all inputs up to the '
       'bound parsed under a step budget counted through the parser debug hooks (no wall-clock verdicts).  '
-      'LLListExpand.tla gives the productions a ListProds template generates for all 64 option sets; the real template '
+      'LLListExpand.tla gives the productions a ListProds template generates for all 64 option sets, alone and followed by a second (optional MapProds) template; the real template '
       'must be refused exactly when they are left recursive, and accepted ones must terminate.',
       _LLNOTE, 'DESIGN.md section 4, C03')
 
@@ -101,7 +102,7 @@ check('C09', 'color',
       'All foreground and all background specifications (names, -1..256, the 8^3 tuples around the cube, g-1..g25, bools, '
       'floats, lists, other objects), constructed twice (the outcome must not depend on values used before), '
       'a representative cross product with all 32 effect combinations, no_color, text and bytes formatter, plus '
-      'multi-chunk texts (built at once, and grown step by step with str()/format() between the extensions): every str() is tokenised independently of the package and accepted or rejected by the TLC '
+      'multi-chunk texts (built at once, and grown step by step with str()/format() between the extensions; some of several hundred sequences): every str() is tokenised independently of the package and accepted or rejected by the TLC '
       'acceptor (each character in exactly the requested state, default state at the end, no stray escape, '
       'strip_colors == plain text, bytes == text); invalid values must raise ValueError.',
       'Trusted: TLC, the tokeniser in harness/sgr.py. Lists/floats as colour values are outside the documented domain.',
@@ -116,7 +117,8 @@ check('C14', 'color',
       'classes, with conflicting re-declarations, and checks ImplMatchesSpec, OrderIndependent, CacheCoherent; '
       '3 ids exhaustively in the thorough tier and by simulation in quick.  Each behaviour is replayed (flat and '
       'nested dicts, colour and no_color): get_color, global palette, component palettes re-obtained after every '
-      'step, make_report pending marks.',
+      'step, make_report pending marks; and once more through the GLOBAL configuration with synced palettes (state after every step, '
+      'and after a new global configuration with the same explicit items is installed).',
       'Trusted: TLC, harness/sgr.py. One description per id; reference chains acyclic.',
       'DESIGN.md section 4, C14')
 
@@ -127,7 +129,7 @@ check('C15', 'sql',
       'through SqlMethod on a real sqlite3 connection, returned rows / recorded SQL text / bound values compared',
       'Every single condition of the family (comparisons x all pool values incl. NULL, quotes and wildcards; IN/NOT IN '
       'with empty, singleton, NULL-containing and 501-element lists as list/tuple/set; NULL tests; LIKE/NOT LIKE; keyword filters; '
-      'OR groups incl. empty and with keyword operands; static conditions; ignored None) is evaluated by the spec on a 49-row table of all value pairs and executed '
+      'OR groups incl. empty and with keyword operands; static conditions; ignored None; conditions as tuples and as constructed SqlFieldValCondition objects) is evaluated by the spec on a 49-row table of all value pairs and executed '
       'in four API spellings x both placeholder styles (? and %s) x plain / underscore-prefixed column names; lists of up to 3 conditions by TLC simulation (quick) and all pairs exhaustively '
       '(thorough).  Checked: rows and order, list/all/one/one_or_none, no value in the SQL text, one placeholder per '
       'bound value in spec order, identical SQL for identical shapes.',
@@ -142,12 +144,12 @@ check('C16', 'http',
       'TLA+ spec of the counter/lock protocol model checked by TLC over all interleavings (safety + liveness); the real '
       'code is run under a deterministic scheduler that enumerates all its schedules at shared-access granularity and '
       'every recorded execution is validated by TLC against the spec',
-      'TLC explores every interleaving of 2 threads x 2 requests and 3 threads x 1 (x2 thorough) incl. caller supplied '
+      'TLC explores every interleaving of 2 threads x 2 requests and 3 threads x 1 (x2 thorough; thorough also runs two 3x2 configurations of the real code up to a schedule limit, and Apalache discharges an inductive invariant of the abstraction ReqIdInd that TLC shows ReqId to refine) incl. caller supplied '
       'ids, requests that fail after their number was handed out, calls refused before an id is generated and a counter that starts at 9999: Unique, GapFree (sent + lost numbers), MutualExclusion, termination.  harness/sched.py stops real threads before every load/store '
       'of a shared mutable attribute of the underlying connection (found in the bytecode of the working tree) and at lock '
       'acquisition and enumerates all schedules by stateless DFS (a removed or narrowed lock just yields more '
       'schedules); each execution trace (loads, stores, lock events, ids handed to the opener) is judged by TLC: ids '
-      'distinct, gap free up to the numbers lost to failed requests, caller ids (strings, 0, empty, set by a request adapter) untouched, also when all requests share one caller headers dict, for all five verbs and with a transport that drops a connection once (verdict) and the event sequence is a behaviour of ReqId (drift).',
+      'distinct, gap free up to the numbers lost to failed requests, caller ids (strings, 0, empty, set by a request adapter) untouched, also when all requests share one caller headers dict, for all five verbs, through plain, basic-auth, client-auth and token-auth connections derived from one base, and with a transport that drops a connection once (verdict) and the event sequence is a behaviour of ReqId (drift).',
       'Trusted: TLC, CPython 3.12 sys.monitoring, the cooperative lock shim. Instructions other than shared accesses '
       'are thread local.  Quick tier caps the schedules per configuration (evidence says when the cap was hit).',
       'DESIGN.md section 4, C16')
@@ -172,8 +174,8 @@ check('C18', 'xls',
       'TLA+ spec of the table reader (title binding, ranged column group, end-of-table rules, ladder fill-down with '
       'origins); TLC checks origin/value consistency and ladder equivalence on every sheet; every TLC-built sheet is '
       'read by the real iter_table/read_table and objects, values and origins compared',
-      'TLC enumerates 8 column layouts x leading blank rows x both end rules x ladder/plain x all cell contents over '
-      '{blank,a,b,0} for 1 (quick) / 2 (thorough) data rows, single and composite (2 attribute) keys, with and without trailing content, and simulates sheets of '
+      'TLC enumerates 10 column layouts (incl. the ranged group in column A) x leading blank rows x both end rules x ladder/plain x all cell contents over '
+      '{blank,a,b,0} for 1 data row (thorough: also 2 rows for the layouts of at most 3 columns), single and composite (2 attribute) keys, with and without trailing content, and simulates sheets of '
       'up to 4 rows; invariants OriginsHold and LadderEquivalence hold on the spec; the real reader must return the '
       'same objects (None for blank keys), attribute values, per-attribute / per-key / range origins, defaults for the '
       'missing optional and the external attribute, the same when two objects per row are read and through the TableReader mixin of a derived class, and the ladder reading must equal the plain reading of the '
@@ -189,7 +191,7 @@ check('C11', 'ppobj',
       'TLA+ printer acceptor (pushdown machine, one action per lexical item) judges the real PrettyPrinter output for '
       'values whose rendered lengths sweep the layout decisions; value shapes come from a TLC builder',
       'Flat dicts with one-line length 150..260 at several nesting offsets, flat lists with element lengths and counts '
-      'around the 200 / 150-per-line decisions (incl. repeated values), special scalars and empty containers, and all '
+      'around the 200 / 150-per-line decisions (incl. repeated values and lists of numbers and bools only), special scalars and empty containers, and all '
       'TLC-enumerated shapes of depth<=2 width<=2 scaled by padding, each in JSON and Python mode, whole and line by '
       'line.  The output is lexed by the driver and accepted by TLC only if every element appears exactly once, in '
       'order, dict keys sorted by code point, single commas - hence reads back as the same data (json.loads / '
@@ -202,7 +204,7 @@ check('C12', 'ppobj',
       'All one-column tables (7 width ranges incl. 0 and min=max, break-by, plain and enum columns in every modifier, '
       '0..1 (quick) / 0..2 (thorough) records over 7 cell-length classes, 7 limit settings, header/footer absent, short '
       'and longer than the table) and TLC simulations of tables with up to 3 columns and 7 records (an enum field may be shown '
-      'in several columns; a third of the tables is built from a format object) are materialised '
+      'in several columns, enum columns alternate between two enum types with different names for the same raw values; a third of the tables is built from a format object, some get their last record after construction) are materialised '
       'with values of mixed Python types (incl. border characters) and printed; TLC accepts the lines only if the '
       'border fixes widths within [min,max], every row has separators under the + marks, every cell is the desired '
       'text padded or a prefix plus dots, break lines sit exactly where the break-by key changes, limits show exactly '
@@ -216,7 +218,7 @@ check('C13', 'ppobj',
       'Print / setter uses); TLC-generated life cycles replayed on real tables with the round-trip equalities '
       'evaluated on real renderings after every action',
       'All life cycles of 2 actions over one-column tables (fixed and ranged widths, modifiers, break-by, 6 limit '
-      'settings and half-open limits given through the constructor argument) exhaustively and TLC simulations of 6 actions over 2 columns incl. repeated fields, on tables of 2, 4 '
+      'settings and half-open limits given through the constructor argument) and of two-column tables (ranged, break-by or not, incl. remove_columns) exhaustively and TLC simulations of 6 actions over 2 columns incl. repeated fields, on tables of 2, 4 '
       'and 6 records (so limits skip or do not skip).  After every action: PPTable(records, fmt=str(t.fmt)) and a '
       'copy with copy.fmt = str(t.fmt) must render exactly like t (also after remove_columns, on tables of up to 60 records); "", ";" and ";;" must change nothing; the shape of '
       'str(t.fmt) is compared with the I-spec (drift only).',
@@ -231,8 +233,8 @@ check('C10', 'render',
       'weak-keyed cache pure); TLC-generated histories replayed in one interpreter on real objects; every render event '
       'judged by a TLC trace acceptor whose memo is seeded from fresh interpreters',
       'All histories of 4 actions (NewConf with 2 contents / no_color, DropConf + gc, SetGlobal, Render through a slot or '
-      'the global configuration, colour / no_color, whole / line by line: each line at once, all lines collected first, interleaved with another rendering of the same object; colours also given as a palette object plus no_color) on the table kind and TLC simulations of 12 '
-      'actions over 7 object kinds (pretty-printed value, two tables sharing an enum field type, record formatter, '
+      'the global configuration, colour / no_color, whole / line by line: each line at once, all lines collected first, interleaved with another rendering of the same object; colours also given as a palette object plus no_color; requested with a temporary configuration that is discarded before the result is consumed) on the table kind and TLC simulations of 12 '
+      'actions over 7 object kinds (pretty-printed value, two tables sharing an enum field type (with undeclared values, one longer than all declared ones), record formatter, '
       'h-doc help, an object starting with an empty line, the git history report, a table with non-string title items, a table whose limits are changed between two printings, a table built from the format of a printed one without its tallest-titled column).  Each event must equal the fresh-interpreter output for its '
       '(object, configuration content, no_color), line-by-line = whole, stripped colour output = no_color output, no '
       'ESC in no_color output.',
@@ -260,13 +262,13 @@ check('C05', 'llparser',
       'parsers built from ListProds / MapProds / ProdSequence',
       'All data of depth 1 and width 2 (thorough: width 3, and depth 2) over atoms, empty items, lists and maps with '
       'repeated keys x 40 option sets (delimiter or none, allow_final_delimiter default/yes/no, nullable items, map '
-      'final delimiter) x 6 grammar shapes (value, optional containers after a word, bracket-less top list, bracket-less top map, optional '
+      'final delimiter) x 8 grammar shapes (value, optional containers after a word, bracket-less top list (with nullable items: `a,` = [a, None]), bracket-less top map (final delimiter judged), rows, optional '
       'list after every atom, declarations list) x with / without / forbidden final delimiter; each rendered 4 times '
       'with seeded whitespace, newlines and comments between tokens and with 4 orders of the productions dict.  The '
       'cleaned value must equal Denote (wrapper nodes the generic cleanup keeps are ignored), forbidden final '
       'delimiters must raise ParsingError, sequences of terminals must come back in order.  The same run model checks '
       'TreeNav.tla (explicit-stack iterator = recursive orders) and replays its trees on real TElement objects (drift only).',
-      'Trusted: TLC. Lists whose last item is empty are not generated (inherent ambiguity with the final delimiter). '
+      'Trusted: TLC. Lists in brackets whose last item is empty are not generated (inherent ambiguity with the final delimiter). '
       'Known finding F-C05 (templates nested in a sequence) is reported as KNOWN-FINDING.',
       'DESIGN.md section 4, C05')
 
@@ -294,7 +296,7 @@ check('C07', 'ghist',
       'All pairs of a component (2 commits, 0-2 build tags per commit; versions from the tag text or from a VERSION file that changes with every commit; DAG components with a diamond family) and a parent history of 2 (quick) / 3 '
       '(thorough) commits with merges, tags, 1-2 branches and every non-decreasing pin assignment, plus TLC '
       'simulations up to 4 component / 7 parent commits and 3 branches: RBuild.included_at of every report-related '
-      'component build (component versions from tag text, from a VERSION file, or builds detected as bumps of the saved number; parents that pin a second component) must be exactly the ancestry-minimal builds (or unbuilt head) of each parent branch whose pin '
+      'component build (component versions from tag text (release lines 1.0 and 0.9), from a VERSION file, or builds detected as bumps of the saved number; parents that pin a second component) must be exactly the ancestry-minimal builds (or unbuilt head) of each parent branch whose pin '
       'contains it, each such parent build must be reported, supply order of the repositories varied.  All dependency '
       'graphs on 2-3 (thorough: 4) repositories x all supply orders: components first, cycles rejected with ValueError.',
       'Trusted: TLC, the mock repositories. Linear component; parent heads not inside a lower-sorted branch (finding '
